@@ -156,6 +156,9 @@ pub mod rete;
 pub mod streaming;
 /// Core type definitions for values, operators, and actions
 pub mod types;
+/// Verification seams (clock and file-system call-backs); only with `--cfg rre_verif`
+#[cfg(rre_verif)]
+pub mod verif_hooks;
 
 // Re-export core types for easy access
 pub use errors::{Result, RuleEngineError};
